@@ -235,3 +235,34 @@ def canon_value(r):
     if type(r).__name__ == "quaternion":
         return ("qs", r.w.hex(), r.x.hex(), r.y.hex(), r.z.hex())
     return ("r", repr(r))
+
+
+# ------------------------------------------------------------------ canonical internal probes
+def canonical_probes(N):
+    """Quaternion vectors (N,1,4) that a routine would obtain from a *fixed* local random generator (the usual spellings), in both ways
+    of reading 4N real numbers as N quaternions.  Inputs built to be orthogonal to / to contain such a vector expose a hidden
+    fixed probe or fixed start vector, which a deterministic routine must not depend on."""
+    out = []
+    for s_ in (0, 1, 42, 1234, 12345):
+        g = np.random.default_rng(s_).standard_normal(4 * N)
+        out.append((f"default_rng({s_})/interleaved", g.reshape(N, 1, 4)))
+        out.append((f"default_rng({s_})/blocked", g.reshape(4, N).T.reshape(N, 1, 4).copy()))
+    for s_ in (0, 1, 42):
+        g = np.random.RandomState(s_).randn(4 * N)
+        out.append((f"RandomState({s_})/interleaved", g.reshape(N, 1, 4)))
+        out.append((f"RandomState({s_})/blocked", g.reshape(4, N).T.reshape(N, 1, 4).copy()))
+    return out
+
+
+def orthonormal_completion(cols):
+    """Gram-Schmidt (twice) of quaternion columns (N,k,4) in the oracle's arithmetic -> orthonormal columns spanning the same flag."""
+    N, k, _ = cols.shape
+    Q = np.zeros((N, k, 4))
+    for j in range(k):
+        v = cols[:, j : j + 1].copy()
+        for _ in range(2):
+            for i in range(j):
+                qi = Q[:, i : i + 1]
+                v = v - O.qmatmul(qi, O.qmatmul(O.qH(qi), v))
+        Q[:, j : j + 1] = v / O.fro(v)
+    return Q
